@@ -280,7 +280,7 @@ Attenuation(cfg, pop) ==
                   /\ (d.parent # 0 =>
                         LET up == ResolveDeleg(cfg, cfg.delegs[d.parent], 0) IN
                         up # <<>> /\ ScopeMatches(up[1].scope, pop[k]) /\ Reaches(up[1].cons, pop[k]))
-WholeReadsAll(cfg, p, pop) == Whole(cfg, p) => ReadableSet(cfg, p, pop) = 1..Len(pop)
+WholeReadsAll(cfg, p, pop) == (Whole(cfg, p) /\ Permitted(cfg, p, "read", SpaceRes)) => ReadableSet(cfg, p, pop) = 1..Len(pop)
 
 Laws(cfg, P, pop) ==
   /\ \A p \in P : /\ DefaultDeny(cfg, p, pop)
